@@ -197,3 +197,171 @@ Section Reseed.
     cbv zeta. rewrite rss_reseed_fresh. split; [reflexivity | apply rss_new_spec].
   Qed.
 End Reseed.
+
+(* ------------------------------------------------------------------ *)
+(* the caller passes the same service as rss and as minimizer_rss       *)
+Section Aliased.
+  Variables rng val : Type.
+  Variable seed_rng : Z -> rng.
+  Variable draw : rng -> req -> val * rng.
+  Variable impl : nat -> option val -> bool * bool.
+  Variables bdata data : Type.
+  Variable bkg : rss rng -> bdata * rss rng.
+  Variable sig : bdata -> rss rng -> data * rss rng.
+  Notation rdraw := (rss_draw rng val draw).
+
+  Lemma with_slot_single {A} (r : rss rng) (f : rss rng -> A * rss rng) :
+    with_slot rng [r] 0 f = let '(a, r') := f r in Ok (a, [r']).
+  Proof. reflexivity. Qed.
+
+  Lemma min_loop_single fuel : forall k reps maxrep nfloat st r,
+    maxrep - reps <= Z.of_nat fuel -> 0 <= reps ->
+    exists reps' st',
+      min_loop rng val draw impl fuel k reps maxrep nfloat st [r] 0
+        = Ok (reps', st', [restart_draws rng val draw nfloat (Z.to_nat (reps' - reps)) r])
+      /\ reps <= reps' <= Z.max reps maxrep.
+  Proof.
+    induction fuel as [|f IH]; intros k reps maxrep nfloat st r Hf Hr;
+      cbn [min_loop]; destruct (min_loop_cond reps maxrep (fst st) (snd st)) eqn:C.
+    - exfalso. rewrite K_min_loop_cond in C. apply andb_true_iff in C.
+      destruct C as [_ C]. apply Z.ltb_lt in C. lia.
+    - exists reps, st. replace (reps - reps) with 0 by lia. cbn. split; [reflexivity|lia].
+    - rewrite K_min_init_rss. destruct (K_init_size nfloat) as [Hs _]. rewrite Hs.
+      rewrite with_slot_single.
+      destruct (rdraw r (RUniform nfloat)) as [v r1] eqn:D.
+      cbn [bind]. destruct K_min_reps as [_ Hinc]. rewrite Hinc.
+      assert (C' := C). rewrite K_min_loop_cond in C'. apply andb_true_iff in C'.
+      destruct C' as [_ C']. apply Z.ltb_lt in C'.
+      destruct (IH (S k) (reps + 1) maxrep nfloat (impl (S k) (Some v)) r1
+                   ltac:(lia) ltac:(lia)) as [reps' [st' [E Hle]]].
+      exists reps', st'. rewrite E. split; [|lia].
+      replace (Z.to_nat (reps' - reps)) with (S (Z.to_nat (reps' - (reps + 1)))) by lia.
+      unfold restart_draws. rewrite iter_state_snoc, D. reflexivity.
+    - exists reps, st. replace (reps - reps) with 0 by lia. cbn. split; [reflexivity|lia].
+  Qed.
+
+  (* what still holds: the pseudo data of THIS trial is that of a fresh run of
+     generate_pseudo_data on rss (it is generated before the minimiser draws);
+     but rss is left advanced by the `reps` restart requests as well *)
+  Theorem do_trial_aliased_spec r maxrep nfloat :
+    exists reps fit,
+      do_trial_aliased rng val draw impl bdata data bkg sig r maxrep nfloat
+      = Ok (fst (gen_on rng bdata data bkg sig r),
+            rs_seed (restart_draws rng val draw nfloat (Z.to_nat reps) (snd (gen_on rng bdata data bkg sig r))),
+            fit,
+            restart_draws rng val draw nfloat (Z.to_nat reps) (snd (gen_on rng bdata data bkg sig r)))
+      /\ 0 <= reps <= Z.max 0 maxrep.
+  Proof.
+    unfold do_trial_aliased, gen_pseudo, minimize, gen_on.
+    destruct (K_pseudo_rss 0) as [Hb Hs]. rewrite Hb, Hs.
+    rewrite with_slot_single. destruct (bkg r) as [b r1]. cbn [bind].
+    rewrite with_slot_single. destruct (sig b r1) as [d r2]. cbn [bind fst snd].
+    destruct K_min_reps as [H0 _]. rewrite H0.
+    destruct (min_loop_single (Z.to_nat maxrep) 0%nat 0 maxrep nfloat (impl 0%nat None) r2
+                ltac:(lia) ltac:(lia)) as [reps [st [E Hle]]].
+    rewrite E. cbn [bind]. rewrite Z.sub_0_r.
+    exists reps. eexists.
+    change (py_get [restart_draws rng val draw nfloat (Z.to_nat reps) r2] 0)
+      with (Ok (restart_draws rng val draw nfloat (Z.to_nat reps) r2)).
+    cbn [bind]. rewrite K_trial_rec_seed. split; [reflexivity|lia].
+  Qed.
+End Aliased.
+
+(* ------------------------------------------------------------------ *)
+(* MCMultiDatasetSignalGenerator: the requests of generate_signal_events *)
+Lemma K_sig_poisson b : sig_poisson b = b. Proof. reflexivity. Qed.
+
+Section Signal.
+  Variables rng val : Type.
+  Variable draw : rng -> req -> val * rng.
+  Variable val_int : val -> Z.
+  Variable sig_groups : val -> list Z.
+  Variable sig_valid : Z -> val -> Z.
+  Notation rcd := (rc_draw rng val draw).
+  Notation rloop := (redraw_loop rng val draw sig_valid).
+  Notation rgroups := (redraw_groups rng val draw sig_valid).
+
+  Notation rc_draws := (rc_draws rng val draw).
+
+  Lemma rc_draws_app a b r : rc_draws (a ++ b) r = rc_draws b (rc_draws a r).
+  Proof. revert r. induction a as [|k a IH]; intros r; [reflexivity|]. cbn [app rc_draws]. apply IH. Qed.
+
+  Lemma redraw_loop_spec fuel : forall g n ns r r',
+    rloop fuel g n ns r = Ok r' ->
+    exists ks, r' = rc_draws ks r /\ Forall (fun k => 1 <= k) ks /\ (length ks <= fuel)%nat.
+  Proof.
+    induction fuel as [|f IH]; intros g n ns r r' H; cbn [redraw_loop] in H;
+      destruct (K_sig_redraw n ns) as [Hc Hs]; rewrite Hc in H; destruct (n <? ns) eqn:E.
+    - discriminate.
+    - inversion H. subst. exists []. repeat split; [constructor | cbn; lia].
+    - rewrite Hs in H. destruct (rcd r (ns - n)) as [v r1] eqn:D.
+      destruct (IH _ _ _ _ _ H) as [ks [Hr [Hk Hl]]].
+      exists ((ns - n) :: ks). cbn [rc_draws]. rewrite D. cbn [snd].
+      split; [exact Hr|]. split; [|cbn; lia].
+      constructor; [apply Z.ltb_lt in E; lia | exact Hk].
+    - inversion H. subst. exists []. repeat split; [constructor | cbn; lia].
+  Qed.
+
+  Lemma redraw_groups_spec fuel nreds : forall g r r',
+    rgroups fuel g nreds r = Ok r' ->
+    exists ks, r' = rc_draws ks r /\ Forall (fun k => 1 <= k) ks.
+  Proof.
+    induction nreds as [|nred rest IH]; intros g r r' H; cbn [redraw_groups] in H.
+    - inversion H. subst. exists []. split; [reflexivity | constructor].
+    - destruct (sig_redraw_need nred).
+      + destruct (rloop fuel g 0 nred r) as [r1|] eqn:E; [|discriminate]. cbn [bind] in H.
+        destruct (redraw_loop_spec _ _ _ _ _ _ E) as [k1 [H1 [F1 _]]].
+        destruct (IH _ _ _ H) as [k2 [H2 F2]].
+        exists (k1 ++ k2). rewrite rc_draws_app, <- H1. split; [exact H2|].
+        apply Forall_app. split; assumption.
+      + cbn [bind] in H. apply (IH _ _ _ H).
+  Qed.
+
+  (* every request of the signal generation goes to the service it is handed:
+     [poisson] random(n) random(k1) ... random(km), all k >= 1 *)
+  Theorem sig_mc_spec fuel poisson mean r n r' :
+    sig_mc rng val draw val_int sig_groups sig_valid fuel poisson mean r = Ok (n, r') ->
+    let r1 := if poisson then snd (rss_draw rng val draw r (RPoisson 1)) else r in
+    n = (if poisson then val_int (fst (rss_draw rng val draw r (RPoisson 1))) else mean)
+    /\ exists ks, r' = rc_draws (n :: ks) r1 /\ Forall (fun k => 1 <= k) ks.
+  Proof.
+    unfold sig_mc. rewrite K_sig_poisson. cbv zeta.
+    destruct poisson.
+    - destruct (rss_draw rng val draw r (RPoisson 1)) as [v0 r1]. cbn [fst snd].
+      rewrite K_sig_choice_size.
+      destruct (rcd r1 (val_int v0)) as [v r2] eqn:D.
+      destruct (rgroups fuel 0 (sig_groups v) r2) as [r3|] eqn:E; [|discriminate].
+      cbn [bind]. intros H. inversion H. subst. split; [reflexivity|].
+      destruct (redraw_groups_spec _ _ _ _ _ E) as [ks [Hr F]].
+      exists ks. cbn [rc_draws]. rewrite D. cbn [snd]. split; assumption.
+    - rewrite K_sig_choice_size. destruct (rcd r mean) as [v r2] eqn:D.
+      destruct (rgroups fuel 0 (sig_groups v) r2) as [r3|] eqn:E; [|discriminate].
+      cbn [bind]. intros H. inversion H. subst. split; [reflexivity|].
+      destruct (redraw_groups_spec _ _ _ _ _ E) as [ks [Hr F]].
+      exists ks. cbn [rc_draws]. rewrite D. cbn [snd]. split; assumption.
+  Qed.
+
+  (* the re-draw loop finishes within n_signal - n iterations when every
+     re-draw yields at least one valid event of the wanted group ... *)
+  Lemma redraw_progress g : (forall v, 1 <= sig_valid g v) ->
+    forall fuel n ns r, ns - n <= Z.of_nat fuel -> exists r', rloop fuel g n ns r = Ok r'.
+  Proof.
+    intros Hp. induction fuel as [|f IH]; intros n ns r Hf; cbn [redraw_loop];
+      destruct (K_sig_redraw n ns) as [Hc Hs]; rewrite Hc; destruct (n <? ns) eqn:E.
+    - apply Z.ltb_lt in E. lia.
+    - eexists; reflexivity.
+    - rewrite Hs. destruct (rcd r (ns - n)) as [v r1].
+      apply IH. specialize (Hp v). lia.
+    - eexists; reflexivity.
+  Qed.
+
+  (* ... and never finishes when no re-draw does (the code loops forever) *)
+  Lemma redraw_no_progress g : (forall v, sig_valid g v = 0) ->
+    forall fuel ns r, 0 < ns -> rloop fuel g 0 ns r = Err OutOfFuel.
+  Proof.
+    intros Hz. induction fuel as [|f IH]; intros ns r Hns; cbn [redraw_loop];
+      destruct (K_sig_redraw 0 ns) as [Hc Hs]; rewrite Hc;
+      (destruct (0 <? ns) eqn:E; [|apply Z.ltb_ge in E; lia]); [reflexivity|].
+    rewrite Hs. destruct (rcd r (ns - 0)) as [v r1]. rewrite Hz, Z.add_0_r. apply IH. exact Hns.
+  Qed.
+End Signal.
